@@ -251,6 +251,16 @@ func c03OneReader(r *Run, ops c03ReaderOps, path string) {
 	r.Check(why == "", "history:calls-on-one-reader:"+ops.format, why, Bs(path))
 }
 
+// c03OneReaderOf runs the one-reader history on a document of the named format (used by other properties'
+// harnesses on their own documents: rendering one view must not change what a later call answers).
+func c03OneReaderOf(r *Run, format, path string) {
+	for _, ops := range c03Readers() {
+		if ops.format == format {
+			c03OneReader(r, ops, path)
+		}
+	}
+}
+
 func c03Clip(s string) string {
 	if len(s) > 300 {
 		return s[:300] + "..."
